@@ -138,7 +138,23 @@ def run(ctx):
                 os.unlink(st["_path"])
             except OSError:
                 pass
-    ctx.notes.append("the > 4 GiB block branch (64-bit restart array) is not exercised by this check")
+    if ctx.quick():
+        ctx.notes.append("the > 4 GiB block branch (64-bit restart array) is exercised in the thorough tier only (needs ~11 GiB of memory)")
+    else:
+        import subprocess
+        prog = build.compile_prog("plain", "bigblock", ["bigblock.c", "seams_pass.c"])
+        free_kb = 0
+        for ln in open("/proc/meminfo"):
+            if ln.startswith("MemAvailable"):
+                free_kb = int(ln.split()[1])
+        if free_kb < 14 * 1024 * 1024:
+            recs = [{"e": "BigBlock", "skipped": "less than 14 GiB available"}]
+        else:
+            p = subprocess.run([prog, "5", "1024", "2"], stdout=subprocess.PIPE, stderr=subprocess.PIPE, text=True, timeout=1200)
+            recs = [json.loads(p.stdout.strip().splitlines()[-1])] if p.returncode == 0 and p.stdout.strip() else [{"e": "BigBlock", "n": 5, "ri": 2, "wide": False, "seen": 0, "content_ok": False, "seek_ok": False, "estimate_matches": False, "restarts": 0, "rc": p.returncode}]
+        ctx.cov["big_block"] = recs[0]
+        for ex, line in core.validate_batch(ctx, [{"e": "Reset", "x": 0}] + recs, "bigblock"):
+            core.report(ctx, "block above 4 GiB does not round-trip through block_builder / block: %s" % json.dumps(recs[0]), {"kind": "trace", "trace": ex, "line": line})
     cov = {"states": ctx.cov.get("states", 0), "transitions": ctx.cov.get("transitions", 0),
            "traces_validated_against_impl": ctx.cov.get("traces_validated_against_impl", 0),
            "evaluations": ctx.cov.get("trace_events", 0), "distinct_nontrivial": ctx.cov.get("structures", 0), "exhaustive": False}
